@@ -357,7 +357,9 @@ pub enum Op {
 	/// Drain the whole pipeline (process all commits, flush, enact, clean).
 	Drain,
 	/// Fail file operations: the `after`-th failable event of `inner` (and all later ones).
-	IoErr { inner: Box<Op>, after: u32, errno: i32, tryio: bool },
+	/// `space_only`: only operations that need disk space fail (create, write, extend), as on a
+	/// full disk; reads, syncs and unlink keep working.
+	IoErr { inner: Box<Op>, after: u32, errno: i32, tryio: bool, space_only: bool },
 	/// Save a copy of current log files for later `LogMutation::Stale`.
 	StashLogs,
 	/// Take an image now, mutate its logs, verify recovery (C13); the run then continues on it.
@@ -489,8 +491,8 @@ impl Op {
 			Op::Iter(c, call) => json!({"op": "iter", "col": c, "call": match call {
 				IterCall::SeekFirst => json!("first"), IterCall::SeekLast => json!("last"),
 				IterCall::Seek(k) => json!(["seek", k]), IterCall::Next => json!("next"), IterCall::Prev => json!("prev") }}),
-			Op::IoErr { inner, after, errno, tryio } =>
-				json!({"op": "ioerr", "inner": inner.json(), "after": after, "errno": errno, "tryio": tryio}),
+			Op::IoErr { inner, after, errno, tryio, space_only } =>
+				json!({"op": "ioerr", "inner": inner.json(), "after": after, "errno": errno, "tryio": tryio, "space_only": space_only}),
 			Op::StashLogs => json!({"op": "stashlogs"}),
 			Op::LogFuzz { muts, adopt } =>
 				json!({"op": "logfuzz", "muts": muts.iter().map(mut_json).collect::<Vec<_>>(), "adopt": adopt}),
@@ -567,6 +569,7 @@ impl Op {
 				after: j["after"].as_u64().unwrap() as u32,
 				errno: j["errno"].as_i64().unwrap() as i32,
 				tryio: j["tryio"].as_bool().unwrap(),
+				space_only: j["space_only"].as_bool().unwrap_or(false),
 			},
 			"stashlogs" => Op::StashLogs,
 			"logfuzz" => Op::LogFuzz {
